@@ -19,6 +19,11 @@ pub mod logger_handle {
         }
         /// permission (DESIGN 3.4): which specification the function under proof may activate
         pub uninterp spec fn set_ok(s: LogSpecification) -> bool;
+        /// token fact: the level gate of the `log` facade was reconfigured for this specification (only set_new_spec /
+        /// parse_new_spec establish it: units handle_b..d prove that they reach `reconfigure(max(spec.max_level(), ceilings))`).
+        /// C05 "filtering follows exactly the specification that is then active": a specification stored in the lock behind
+        /// the back of set_new_spec leaves the facade gate at the old level
+        pub uninterp spec fn gate_set_for(s: LogSpecification) -> bool;
 
         /// SHIM for `pub fn set_new_spec(&self, new_spec: LogSpecification)`, declared `&mut self` (see header)
         #[verifier::external_body]
@@ -29,6 +34,7 @@ pub mod logger_handle {
                 final(self).active() == new_spec,
                 final(self).stack() == old(self).stack(),
                 final(self).rest_same(old(self)),
+                LoggerHandle::gate_set_for(new_spec),
         { unimplemented!() }
 
         /// SHIM for `pub fn parse_new_spec(&self, spec: &str)`, declared `&mut self` like set_new_spec (unit handle_b proves: the
@@ -40,7 +46,7 @@ pub mod logger_handle {
                 parse_result(spec@) is Ok ==> LoggerHandle::set_ok(parse_result(spec@)->Ok_0), //@label parse_new_spec.perm C05
             ensures
                 r is Ok <==> parse_result(spec@) is Ok,
-                r is Ok ==> final(self).active() == parse_result(spec@)->Ok_0,
+                r is Ok ==> final(self).active() == parse_result(spec@)->Ok_0 && LoggerHandle::gate_set_for(parse_result(spec@)->Ok_0),
                 r is Err ==> final(self).active() == old(self).active(),
                 final(self).stack() == old(self).stack(),
                 final(self).rest_same(old(self)),
@@ -51,11 +57,15 @@ pub mod logger_handle {
     //@   req[push.pre.perm] forall|s: LogSpecification| #[trigger] LoggerHandle::set_ok(s) <==> s == new_spec
     //@   ens[push.post.stack] final(self).stack() == old(self).stack().push(old(self).active())
     //@   ens[push.post.active] final(self).active() == new_spec
+    //@   ens[push.post.gate] LoggerHandle::gate_set_for(new_spec)
+    //@   unmodelled .write() ## push.post.stack push.post.active
     //@   canary
     //@ fn src/logger_handle.rs impl LoggerHandle / fn pop_temp_spec
     //@   props C05
     //@   req[pop.pre.perm] forall|s: LogSpecification| #[trigger] LoggerHandle::set_ok(s) <==> (old(self).stack().len() > 0 && s == old(self).stack().last())
     //@   ens[pop.post.nonempty] old(self).stack().len() > 0 ==> final(self).stack() == old(self).stack().drop_last() && final(self).active() == old(self).stack().last()
+    //@   ens[pop.post.gate] old(self).stack().len() > 0 ==> LoggerHandle::gate_set_for(old(self).stack().last())
+    //@   unmodelled .write() ## pop.post.nonempty pop.post.empty
     //@   ens[pop.post.empty] old(self).stack().len() == 0 ==> final(self).stack() == old(self).stack() && final(self).active() == old(self).active()
     //@   canary
     //@ fn src/logger_handle.rs impl LoggerHandle / fn parse_and_push_temp_spec
@@ -67,6 +77,8 @@ pub mod logger_handle {
     //@   req[parse_and_push.pre.perm] forall|s: LogSpecification| #[trigger] LoggerHandle::set_ok(s) <==> (parse_result(as_str_view::<S>(new_spec)) is Ok && s == parse_result(as_str_view::<S>(new_spec))->Ok_0)
     //@   ens[parse_and_push.post.ok] parse_result(as_str_view::<S>(new_spec)) is Ok ==> r is Ok && final(self).stack() == old(self).stack().push(old(self).active())
     //@       && final(self).active() == parse_result(as_str_view::<S>(new_spec))->Ok_0
+    //@   ens[parse_and_push.post.gate] parse_result(as_str_view::<S>(new_spec)) is Ok ==> LoggerHandle::gate_set_for(parse_result(as_str_view::<S>(new_spec))->Ok_0)
+    //@   unmodelled .write() ## parse_and_push.post.ok parse_and_push.post.err
     //@   ens[parse_and_push.post.err] parse_result(as_str_view::<S>(new_spec)) is Err ==> r is Err && final(self).stack() == old(self).stack() && final(self).active() == old(self).active()
     //@   canary
     }
